@@ -183,9 +183,22 @@ def monitor(ccls, fn, env, param_names):
     ro = d.get("raises_only")
     if isinstance(ro, str):
         ro = (ro,)
-    args = [env[n] for n in param_names]
+    # *args / **kwargs parameters are unpacked, as a caller would
+    pos, kw = [], {}
     try:
-        result = fn(*args)
+        sig_params = inspect.signature(fn).parameters
+    except (TypeError, ValueError):
+        sig_params = {}
+    for n in param_names:
+        kind = sig_params[n].kind if n in sig_params else None
+        if kind == inspect.Parameter.VAR_POSITIONAL:
+            pos.extend(list(env[n]))
+        elif kind == inspect.Parameter.VAR_KEYWORD:
+            kw.update(dict(env[n]))
+        else:
+            pos.append(env[n])
+    try:
+        result = fn(*pos, **kw)
         exc = None
     except BaseException as ex:   # noqa
         result = None
